@@ -69,7 +69,9 @@ def describe(tier):
     return dict(
         rule='E2xE4: operator skeletons (no repeaters) with (elements, group depth) bounds x element kinds %s (xsl syntax: %s) x all '
              'option sets with <= d deviations over %s x syntaxes: (n, groups, kind set, d, syntaxes) in %s. '
-             'Transition = one production / one option toggle.' % (list(KINDS), list(XSL_KINDS), list(OPTION_SPACE), b['sweeps']),
+             'Attribute-forms sweep: elements carrying each (pair) of the forms %s, in every syntax, under every option set with <= 1 '
+             'deviation, and the same parsed tree formatted twice. Transition = one production / one option toggle.' % (
+                 list(KINDS), list(XSL_KINDS), list(OPTION_SPACE), b['sweeps'], ATTR_FORMS),
         nontrivial='at least one option deviates from the default (two outputs are compared).',
         bounds=b,
         assumptions=['text-only nodes with children, elements listed in formatSkip (indent clause), whitespace-only lines (e.g. the blank '
@@ -85,7 +87,58 @@ def shards(tier):
     for si, sw in enumerate(BOUNDS[tier]['sweeps']):
         for k in range(NSH):
             out.append(dict(sweep=si, k=k, of=NSH))
+    for syntax in SYNTAXES:
+        out.append(dict(sweep='attrs', syntax=syntax))
     return out
+
+
+# attribute forms sweep: the formatter writes every kind of attribute (mapped names, value prefixes, booleans, expressions) the
+# same way whatever the cosmetic options, and formatting the same parsed tree again gives the same text
+ATTR_FORMS = ['..m1', '.c1', '#i1', '[t=v]', '[t="q v"]', '[d.]', '[e={x}]', '[disabled]', '..m1..m2', '[class=k]..m1', '[for=f]']
+
+
+def attr_abbrs():
+    for f in ATTR_FORMS:
+        yield 'div' + f
+        yield 'ul%s>li%s*2>span%s' % (f, f, f)
+        yield 'p%s{t}+br%s/' % (f, f)
+        for g in ATTR_FORMS:
+            if g != f:
+                yield 'div' + f + g
+
+
+def check_attr(abbr, syntax, opts):
+    bad = check_reuse(abbr, syntax)
+    if bad:
+        return bad
+    ro = real_options(opts)
+    try:
+        out = expand(abbr, {'syntax': syntax, 'options': ro})
+        base = baseline(abbr, syntax)
+    except Exception as e:
+        return [('exception:%s' % type(e).__name__, str(e)[:120])]
+    got = norm_events(lex_html(out))
+    if got != base:
+        return [(classify_content(base, got, opts), dict(abbr=abbr, options=ro, syntax=syntax, output=out[:300], baseline=base[:30], got=got[:30]))]
+    return []
+
+
+def run_attrs(shard, ctx):
+    syntax = shard['syntax']
+    osets = [o for o in explore.deviations(OPTION_SPACE, 1) if 'comment' not in o]
+    for abbr in attr_abbrs():
+        for opts in osets:
+            ctx.tick((abbr, opts))
+            ctx.states += 1
+            ctx.transitions += 1
+            ctx.evals += 4
+            ctx.validated += 1
+            if opts:
+                ctx.nontrivial += 1
+            for cls, dd in check_attr(abbr, syntax, opts):
+                ctx.violation(cls, dict(attr_abbr=abbr, syntax=syntax, options=opts), dd)
+        ctx.outcome(('attrs', syntax))
+    ctx.sample(dict(abbr=abbr, syntax=syntax))
 
 
 def real_options(opts):
@@ -293,6 +346,8 @@ def cases(tier, si):
 
 
 def run_shard(shard, ctx, tier):
+    if shard['sweep'] == 'attrs':
+        return run_attrs(shard, ctx)
     si, k, of = shard['sweep'], shard['k'], shard['of']
     abbr = None
     idx = -1
@@ -337,6 +392,8 @@ def _tuplify(seq):
 
 
 def check_case(case):
+    if 'attr_abbr' in case:
+        return check_attr(case['attr_abbr'], case['syntax'], case['options'])
     seq = _tuplify(case['seq'])
     if case['options'].get('style-triple'):
         return check_style(seq, case['labels'], case['syntax'])[1]
@@ -344,6 +401,8 @@ def check_case(case):
 
 
 def repro(case):
+    if 'attr_abbr' in case:
+        return 'from emmet import expand\nprint(expand(%r, {"syntax": %r, "options": %r}))\n' % (case['attr_abbr'], case['syntax'], real_options(case['options']))
     seq = _tuplify(case['seq'])
     abbr = M.render(seq, case['labels'])
     return 'from emmet import expand\nprint(expand(%r, {"syntax": %r, "options": %r}))\nprint(expand(%r, {"syntax": %r, "options": {"output.format": False}}))\n' % (
